@@ -21,7 +21,7 @@ CHECKS = {
              technique="Lean 4 proof (binary-search invariant by induction on fuel) + differential correspondence model vs code", ref="4/C04"),
 }
 # checks delivered by builders: text comes from integration/<ID>.json; only the ids listed here are claimed
-ENABLED_FROM_INTEGRATION = ["C06", "C07", "C08", "C09", "C10", "C11", "C12", "C13", "C14", "C15", "C16", "C17", "C18", "C19", "C20"]
+ENABLED_FROM_INTEGRATION = ["C02", "C06", "C07", "C08", "C09", "C10", "C11", "C12", "C13", "C14", "C15", "C16", "C17", "C18", "C19", "C20"]
 for _p in ENABLED_FROM_INTEGRATION:
     _m = json.load(open(os.path.join(V, "integration", _p + ".json")))["manifest"]
     _tech = _m.get("technique", "proof")
